@@ -52,8 +52,8 @@ type MultihashPrimary struct {
 	writer            *bufio.Writer
 	outstandingWork   types.Work
 	curPool, nextPool blockPool
-	poolLk            sync.RWMutex
-	flushLock         sync.Mutex
+	poolLk            verifhook.RWMutex
+	flushLock         verifhook.Mutex
 	fileCache         *filecache.FileCache
 
 	// fileNum and length track flushed data.
